@@ -147,7 +147,7 @@ PROPERTIES = {
              "what": "beyond the exhaustive sizes: element-wise gradients with dimensions up to 6 and rank up to 4, matmul up to 6x6x6 with leading dimensions and additive terms, sum(k), conv on images up to 8x8 with filters up to 4x4, strides up to 4, batches up to 4",
              "require": {"passes": 100}},
             {"name": "single_op_vjp_real", "cases": FR.real_op_cases(tier, seed), "spec": "TraceReal", "real": True,
-             "what": "real domain: ln, exp, sigmoid, softmax, reciprocal, powf with exponents 2.5 / 0.5 / -1.5 / integers, general division and the exact operations on random real values; forward value and every gradient compared through spec-generated terms (tolerance 64 ulp of the term magnitude)",
+             "what": "real domain: ln, exp, sigmoid, softmax, reciprocal, powf with exponents 2.5 / 0.5 / -1.5 / integers, general division and the exact operations on random real values; forward value and every gradient compared through spec-generated terms (tolerance 16 ulp of the term magnitude)",
              "require": {"passes": 400, "real_checked": 5000}},
         ],
         "rule": "a case = one operation with one parameterisation, operand shapes, tracked subset and seed; distinct by program hash",
@@ -342,7 +342,7 @@ PROPERTIES = {
              "require": {"updates": 100, "passes": 100, "owned": 100}},
             {"name": "training_loops_real", "cases": FR.real_model_cases(tier, seed) + FR.real_model_cases(tier, seed + 9, iters=(30, 50), n=3 if tier == "quick" else 12),
              "spec": "TraceReal", "real": True, "mask": {"real-value", "dims", "tracked-flag", "grad-presence", "unexpected-panic", "update-dims"},
-             "what": "real domain: dense stacks with sigmoid / relu hidden layers, softmax + cross-entropy or mse, learning rate 0.1, 2..6 iterations and long runs of 30..50 iterations with changing batch sizes; every iteration is judged from the parameters observed before it (loss and every parameter, 64 ulp of the term magnitude)",
+             "what": "real domain: dense stacks with sigmoid / relu hidden layers, softmax + cross-entropy or mse, learning rate 0.1, 2..6 iterations and long runs of 30..50 iterations with changing batch sizes; every iteration is judged from the parameters observed before it (loss and every parameter, 16 ulp of the term magnitude)",
              "require": {"updates": 150, "real_checked": 3000}},
         ],
         "rule": "a case = one training run; distinct by program hash",
@@ -365,7 +365,7 @@ PROPERTIES = {
         "rule": "a case = one layer / cost / model configuration; distinct by program hash",
     },
     "C19": {
-        "level_text": "The same specification judges the f32 build: the executor is rebuilt with --features f32 and the exact-domain families of C01-C07 are re-run bit for bit with the specification's magnitude guard lowered to 2^22 (every intermediate exactly representable in a 24-bit significand), so dims, tracking, refusals and values must be identical to what the f64 build is required to produce; the real-domain families are re-run with the terms evaluated in f64 and a tolerance of 64 single-precision ulps of the term magnitude",
+        "level_text": "The same specification judges the f32 build: the executor is rebuilt with --features f32 and the exact-domain families of C01-C07 are re-run bit for bit with the specification's magnitude guard lowered to 2^22 (every intermediate exactly representable in a 24-bit significand), so dims, tracking, refusals and values must be identical to what the f64 build is required to produce; the real-domain families are re-run with the terms evaluated in f64 and a tolerance of 16 single-precision ulps of the term magnitude; values whose terms leave the normal range of f32 are not judged",
         "level_note": TRACE_NOTE + "; 'agreeing with the double-precision reference' is decided against the specification's value (exact, or the f64 evaluation of the defining term), not against a second run of the library",
         "technique": "TLC trace validation of the f32 build against the same TLA+ specification (exact domain bit for bit, real domain through terms)",
         "mc": lambda tier: [mc("MC_Engine_p1")],
@@ -382,7 +382,7 @@ PROPERTIES = {
             {"name": "f32_real", "f32": True, "spec": "TraceReal", "real": True,
              "cases": FR.real_op_cases(tier, seed, f32=True) + FR.real_program_cases(tier, seed, f32=True)
                       + FR.real_layer_cases(tier, seed, f32=True) + FR.real_model_cases(tier, seed, f32=True),
-             "what": "real-domain families (transcendental operations, programs, layers, training loops) on the f32 build, tolerance 64 * 2^-23 * magnitude",
+             "what": "real-domain families (transcendental operations, programs, layers, training loops) on the f32 build, tolerance 16 * 2^-23 * magnitude",
              "require": {"real_checked": 8000}},
         ],
         "rule": "a case = one program of the C01-C07 spaces run on the f32 build; distinct by program hash",
